@@ -70,6 +70,21 @@ static inline std::string fmt_value(const std::string &fmt, const Civ &c)
 		}
 		char f = fmt[++i];
 		b[0] = 0;
+		if (f == 'O' && i + 1 < fmt.size()) {
+			/* roman numerals */
+			char g = fmt[++i];
+			int v = g == 'y' ? c.y % 100 : g == 'Y' ? c.y : g == 'm' ? c.m : c.d;
+			static const int val[] = {1000, 900, 500, 400, 100, 90, 50, 40, 10, 9, 5, 4, 1};
+			static const char *sym[] = {"M", "CM", "D", "CD", "C", "XC", "L", "XL", "X", "IX", "V", "IV", "I"};
+			if (v == 0)
+				v = 100;	/* no roman zero: the year ..00 is not generated, see inv_value */
+			for (int k = 0; k < 13; k++)
+				while (v >= val[k]) {
+					s += sym[k];
+					v -= val[k];
+				}
+			continue;
+		}
 		switch (f) {
 		case 'Y': snprintf(b, sizeof(b), "%04d", c.y); break;
 		case 'y': snprintf(b, sizeof(b), "%02d", c.y % 100); break;
@@ -159,6 +174,7 @@ static const InFmt infmts[] = {
 	{"%m-%d", K_DATE, false, true},
 	{"%d %b", K_DATE, false, true},
 	{"%d/%m/%y", K_DATE, false, true},
+	{"%Oy-%Om-%Od", K_DATE, false, true},
 	{"%Y-%m", K_DATE, false, true},
 	{"%d", K_DATE, false, true},
 	{"%F %H:%M", K_DT, false, true},
@@ -271,7 +287,7 @@ struct Inv {
 	int kind = K_DATE;
 	std::vector<std::string> ifmts;	/* the -i formats values are drawn from; empty = default parser */
 	size_t pos_at = 0;		/* index into fixed where the operands (durations, rounding targets) begin */
-	bool many_if = false, empty_mode = false, sed_default_forms = false, no_junk = false, day_gt12 = false;
+	bool many_if = false, empty_mode = false, sed_default_forms = false, no_junk = false, day_gt12 = false, day_mon_1012 = false, first_fmt_only = false;
 	/* narrow: every value lies in one month, in several calendars, with day numbers and count/weekday pairs that
 	 * coincide numerically (ymd day d next to ymcw count c and weekday w with d == 8c + w, the packed layout) */
 	bool narrow = false;
@@ -328,7 +344,13 @@ static inline std::string inv_value(Rng &r, const Inv &iv)
 	}
 	if (iv.ifmts.empty())
 		return default_value(c, iv.kind, r, iv.sed_default_forms);
-	const std::string &f = iv.ifmts[r.below(iv.ifmts.size())];
+	const std::string &f = iv.ifmts[iv.first_fmt_only ? 0 : r.below(iv.ifmts.size())];
+	if (f.find("%Oy") != std::string::npos && c.y % 100 == 0)
+		c.y += 1 + (int)r.below(98);
+	if (iv.day_mon_1012) {
+		c.d = 10 + (int)r.below(3);
+		c.m = 10 + (int)r.below(3);
+	}
 	if (f.compare(0, 2, "%s") == 0 && c.y < 1970)
 		c.y += 100;
 	if (f.compare(0, 2, "%s") == 0 && r.chance(1, 10))
@@ -368,6 +390,8 @@ static inline std::string rand_base(Rng &r)
 		if (b.d > 28)
 			b.d = 28;
 	}
+	if (r.chance(1, 10))
+		return fmt_value("%F", b) + (r.chance(1, 2) ? "T24:00:00" : "T23:59:60");	/* both are accepted times of day */
 	switch (r.below(8)) {
 	case 0:
 	case 1:
@@ -426,10 +450,22 @@ static inline Inv rand_inv(Rng &r, const GenOpt &go)
 		static const char *const sf[][2] = {{"%d-%b-%Y", "%Y-%m-%d"}, {"%Y/%m/%d", "%d/%m/%Y"}, {"%d/%m/%Y", "%Y/%m/%d"}, {"%d %b %Y", "%b %d, %Y"},
 						    {"%b %d, %Y", "%d %b %Y"}, {"%Y-%m-%d", "%d-%b-%Y"}, {"%d-%m-%Y", "%Y-%m-%d"}, {"%Y-%m-%d", "%d-%m-%Y"}};
 		size_t k = r.below(sizeof(sf) / sizeof(*sf));
+		if (r.chance(1, 4)) {
+			/* day and month swapped, day and month both 10..12: either format reads the whole value, the one
+			 * given first must win; values are drawn from the first format only */
+			static const char *const sw[][2] = {{"%d/%m/%Y", "%m/%d/%Y"}, {"%m/%d/%Y", "%d/%m/%Y"}, {"%d.%m.%Y", "%m.%d.%Y"}, {"%m-%d-%Y", "%d-%m-%Y"}};
+			size_t q = r.below(4);
+			ifmts.push_back(sw[q][0]);
+			ifmts.push_back(sw[q][1]);
+			iv.kind = K_DATE;
+			iv.day_mon_1012 = true;
+			iv.first_fmt_only = true;
+		} else {
 		ifmts.push_back(sf[k][0]);
 		ifmts.push_back(sf[k][1]);
 		iv.kind = K_DATE;
-		iv.day_gt12 = true;	/* days that cannot be read as a month, whole or in part: one format only takes the value */
+		iv.day_gt12 = true;
+		}	/* days that cannot be read as a month, whole or in part: one format only takes the value */
 	} else if (nif >= 2 && go.max_if >= 2 && r.chance(1, 3)) {
 		/* an overlapping family, in a seeded order */
 		const Fam &f = fams[r.below(sizeof(fams) / sizeof(*fams))];
@@ -452,6 +488,10 @@ static inline Inv rand_inv(Rng &r, const GenOpt &go)
 				if (infmts[x].kind != iv.kind && !(tries > 20))
 					continue;
 				if (!*infmts[x].fmt || loose(infmts[x].fmt))
+					continue;
+				/* roman numerals inside running text: the finder reads VI-VIII-V out of XXVI-VIII-V, no
+				 * separator convention avoids that; such formats stay with the argument and stdin modes */
+				if (go.sed_default_forms && strstr(infmts[x].fmt, "%O"))
 					continue;
 				if (i == 0)
 					iv.kind = infmts[x].kind;
